@@ -226,14 +226,48 @@ def rule_U(ctx):
 def rule_I(ctx):
     """C08.I indices stay inside the allocated grid"""
     f = _m(ctx, '__getCell')
-    # does __getCell admit x == xmax ?  (test `x > xmax` -> yes)
-    admits = True
-    for n in ast.walk(f.node):
-        if isinstance(n, ast.Compare) and len(n.ops) == 1 and isinstance(n.ops[0], ast.GtE) and unparse(n.comparators[0]) in ('self.xmax', 'self.ymax'):
-            admits = False
-    if not admits:
-        ctx.ok('C08.I', f, '__getCell rejects coordinates on the upper border: the fractional index is always < size', node=f.node)
-        return
+    # __getCell admits every coordinate of the closed extent: the extent is the bounding box of the data (plus a margin that may be 0),
+    # so the extreme vertices lie exactly on its border
+    from .c03 import cond_eval
+    co = f.params[1]
+    wq = Walker(f, loop_mode='skip')
+    X, Y = '%s.getX()' % co, '%s.getY()' % co
+    width = Rat.atom('self.xmax') - Rat.atom('self.xmin')
+    height = Rat.atom('self.ymax') - Rat.atom('self.ymin')
+    n_none = 0
+    for o in wq.run(body_nodocstring(f), State()):
+        if o.kind != 'return' or isinstance(o.value, tuple):
+            continue
+        n_none += 1
+        for label, sub in (('x == xmax', {X: Rat.atom('self.xmax')}), ('x == xmin', {X: Rat.atom('self.xmin')}),
+                           ('y == ymax', {Y: Rat.atom('self.ymax')}), ('y == ymin', {Y: Rat.atom('self.ymin')})):
+            def oracle(c, sub=sub):
+                if c.kind != 'cmp' or not (isinstance(c.a, Rat) and isinstance(c.b, Rat)):
+                    return None
+                d = c.a - c.b
+                for k_, v_ in sub.items():
+                    d = d.subst(k_, v_)
+                d = d.subst('float(%s)' % X, sub.get(X, Rat.atom(X))).subst('float(%s)' % Y, sub.get(Y, Rat.atom(Y)))
+                sign = None
+                if wq.rel.is_zero(d):
+                    sign = 0
+                elif wq.rel.is_zero(d - width) or wq.rel.is_zero(d - height):
+                    sign = 1
+                elif wq.rel.is_zero(d + width) or wq.rel.is_zero(d + height):
+                    sign = -1
+                if sign is None:
+                    return None
+                return {'<': sign < 0, '<=': sign <= 0, '==': sign == 0, '!=': sign != 0}[c.op]
+            vals = [cond_eval(c, oracle) for c, _ in o.state.conds]
+            # the path is taken at this border point if its last test holds there and no earlier test is known to fail
+            if vals and vals[-1] is True and not any(v is False for v in vals[:-1]):
+                ctx.violation('C08.I', f, 'every coordinate of the closed extent [xmin, xmax] x [ymin, ymax] is mapped to a cell (only points outside are refused)',
+                              {'point refused': label, 'test that refuses it': repr(o.state.conds[-1][0]),
+                               'why': 'with margin 0 the extreme vertices of the data lie exactly on the border: a segment ending there is registered in no cell, '
+                                      'and queries along it miss the feature'}, node=o.node, key='closed-extent:' + label)
+    if n_none == 0:
+        raise shape_error('__getCell: out-of-extent returns not found', f.loc())
+    ctx.ok('C08.I', f, '__getCell admits the whole closed extent', node=f.node)
     sites = []
     for name in ('request', 'neighborhood'):
         g = ctx.prog.func(SI + '.' + name)
@@ -298,7 +332,52 @@ def rule_T(ctx):
               'at construction feature number n of the collection is registered under n', witness={}, node=init.node, key='initial')
 
 
+def rule_K(ctx):
+    """C08.K registration bookkeeping: the (cell, feature) key tested is the key recorded"""
+    f = _m(ctx, '__addSegment')
+    w = Walker(f, loop_mode='once')
+    apps = []
+    for o in w.run(body_nodocstring(f), State()):
+        for e in o.state.events:
+            if e.kind == 'call' and e.name == 'append' and 'grid' in vr(e.recv) and not any(e.node is x[0].node for x in apps):
+                adds = [a for a in o.state.events if a.kind == 'call' and a.name == 'add' and a.seq > e.seq]
+                apps.append((e, adds))
+    if not apps:
+        raise shape_error('__addSegment: registration of the feature in a cell not found', f.loc())
+    import re
+    for e, adds in apps:
+        m = re.match(r'^self\.grid\[(.+)\]\[(.+)\]$', vr(e.recv))
+        if not m:
+            raise shape_error('__addSegment: cell written is not self.grid[i][j]', f.loc(e.node))
+        cell = (m.group(1), m.group(2))
+        data = vr(e.args[0])
+        tested = []
+        for c, _ in e.conds:
+            for cj in c.conjuncts():
+                inner = cj.items[0] if cj.kind == 'not' else None
+                if inner is not None and inner.kind == 'in' and False:
+                    pass
+                t = repr(cj)
+                mm = re.match(r'^not \((.+), (.+), (.+)\) in (.+)$', t)
+                if mm:
+                    tested.append((mm.group(1), mm.group(2), mm.group(3), mm.group(4)))
+        for a in adds:
+            key = a.args[0]
+            if not (isinstance(key, tuple) and len(key) == 3):
+                continue
+            got = tuple(vr(x) for x in key)
+            ctx.check(got == cell + (data,), 'C08.K', f, 'the bookkeeping entry recorded for a registration is (column, row, feature) of the cell just written',
+                      witness={'cell written': list(cell), 'entry recorded': list(got),
+                               'why': 'the entry marks another cell as done: when the feature later crosses that cell it is not registered there, and queries in it miss the feature'},
+                      node=a.node, key='inventory-key')
+            for tk in tested:
+                if tk[3] == vr(a.recv):
+                    ctx.check(tk[:3] == got, 'C08.K', f, 'the bookkeeping entry tested before a registration is the one recorded after it',
+                              witness={'tested': list(tk[:3]), 'recorded': list(got)}, node=a.node, key='inventory-test')
+
+
 RULES = [
+    ('C08.K', rule_K, 'quick'),
     ('C08.M', rule_M, 'quick'),
     ('C08.B', rule_B, 'quick'),
     ('C08.W', rule_W, 'quick'),
